@@ -65,7 +65,11 @@ var streamPoints = []string{"stream.MsgSend.beforeWriteLock", "stream.rawWrite.b
 
 func genC04(t *rapid.T) c04Case {
 	c := c04Case{Cfg: genCfg(t)}
-	c.HSteps = rapid.SliceOfN(handlerStepGen, 0, 3).Draw(t, "hsteps")
+	// the handler only receives and sends until the cancellation reaches it (it never ends the RPC by itself)
+	plainStep := rapid.Custom(func(t *rapid.T) sim.Step {
+		return sim.Step{Op: rapid.SampledFrom([]string{"recv", "send"}).Draw(t, "hop"), Size: sizeGen.Draw(t, "hsize")}
+	})
+	c.HSteps = rapid.SliceOfN(plainStep, 0, 3).Draw(t, "hsteps")
 	sendGen := rapid.Custom(func(t *rapid.T) sim.Step { return sim.Step{Op: "send", Size: sizeGen.Draw(t, "sz")} })
 	c.Sends = rapid.SliceOfN(sendGen, 0, 3).Draw(t, "sends")
 	if rapid.IntRange(0, 3).Draw(t, "two") == 0 {
